@@ -1,6 +1,8 @@
 """Concrete-value executions of hand-written and templated functions that use syntax the abstract reference semantics (PySem.tla)
 does not model: tuple / attribute / subscript targets, multiple targets, chained comparisons, constant tests, lambdas, comprehensions,
-conditional expressions, f-strings, starred and keyword arguments, assignment expressions, elif chains, deep nesting, long functions.
+conditional expressions, f-strings, starred and keyword arguments, assignment expressions, elif chains, deep nesting, long functions,
+signatures other than plain positional parameters (with keyword calls and calls that do not bind), decorators, in-place operators on
+subscripts and attributes, starred assignment targets, pass and doc strings.
 
 C07's and C08's statements are RELATIONAL (the regenerated function / the block-wise interpretation of the built graph behaves like the
 original), so no reference semantics is needed here: for every function and every argument tuple of a small grid the original, the
@@ -48,7 +50,20 @@ def externals(events: List[Any]) -> Dict[str, Any]:
         events.append(["pairs", int(k), int(n)])
         return [(i, i * i) for i in range(max(0, int(n)))]
 
-    return {"ev": ev, "seq": seq, "pairs": pairs, "Box": _Box}
+    def deco(fn: Any) -> Any:
+        def wrapped(*a: Any, **k: Any) -> Any:
+            events.append(["deco", 0, repr(a), ""])
+            return ("deco", fn(*a, **k))
+        return wrapped
+
+    def deco2(tag: Any) -> Any:
+        def d(fn: Any) -> Any:
+            def wrapped(*a: Any, **k: Any) -> Any:
+                return ("deco2", tag, fn(*a, **k))
+            return wrapped
+        return d
+
+    return {"ev": ev, "seq": seq, "pairs": pairs, "Box": _Box, "deco": deco, "deco2": deco2}
 
 
 def _run(fn: Any) -> List[Any]:
@@ -262,9 +277,24 @@ SIGS: List[Any] = [
 ]
 CALLS: Dict[str, Any] = {s: c for s, c in SIGS}
 
+# Decorated functions: the decorators belong to the def statement, so only the regenerated FUNCTION can be compared (C07); the
+# block-wise interpretation of the body (C08) has no def statement.
+DECORATED = [
+    "@deco\ndef f(a, b, c):\n    r = 0\n    while r < a:\n        r += ev(1, r)\n    return r + b\n",
+    "@deco2(ev(5))\n@deco\ndef f(a, b, c) -> 'int':\n    if a:\n        return ev(1, b)\n    return c\n",
+]
+MORE = [
+    # in-place operators on subscripts and attributes, unpacking and starred assignment targets, pass
+    "def f(a, b, c):\n    r = [0, 0]\n    o = Box()\n    for i in seq(1, a):\n        r[i % 2] += ev(2, i)\n        o.v += i\n        r[0] -= b\n        o.v *= 2\n    return r, o.v\n",
+    "def f(a, b, c):\n    x = y = 0\n    x, y = y + a, x + b\n    (x, y), z = (y, x), c\n    [p, *q] = seq(1, a + 1)\n    while q:\n        p, *q = q\n        x += ev(2, p)\n    return x, y, z, p, q\n",
+    "def f(a, b, c):\n    '''doc string'''\n    r = 0\n    while r < b:\n        r += 1\n        pass\n    if c:\n        pass\n    else:\n        r += ev(2)\n    return r\n",
+    "def f(a, b, c):\n    r = 0\n    for i in seq(1, a):\n        pass\n    while r < b:\n        r += 1\n    return r\n",
+    "def f(a, b, c):\n    r = 0\n    if a:\n        pass\n    elif b:\n        r = ev(1)\n    else:\n        pass\n    while r < c:\n        r += 1\n    else:\n        pass\n    return r\n",
+]
+
 
 def corpus() -> List[str]:
-    return HAND + long_functions() + templated() + nested_else() + [s for s, _ in SIGS]
+    return HAND + long_functions() + templated() + nested_else() + [s for s, _ in SIGS] + DECORATED + MORE
 
 
 GRID = [(a, b, c) for a in (0, 1, 2, 3) for b in (0, 1, 2) for c in (0, 1, 3)]
@@ -305,6 +335,8 @@ def evaluate(src: str, who: str) -> Dict[str, Any]:
         return rec
     except Exception as e:
         rec.update({"outcome": "internal", "exc": exc_sig(e)})
+        return rec
+    if who == "blocks" and src in DECORATED:
         return rec
     for args, kwargs in CALLS.get(src) or [(list(a), {}) for a in GRID]:
         o = run_source(src, "f", args, kwargs)
